@@ -263,10 +263,7 @@ func (w *world) dialFunc(ctx context.Context, target string, dopts ...grpc.DialO
 // route issues one RPC and returns the pool (endpoint) it entered.
 func (w *world) route(name string, expectUp, stream bool) (hit string, panicked interface{}) {
 	defer func() { panicked = recover() }()
-	ctx := context.Background()
-	if name != "" {
-		ctx = grpcgcp.NewMEContext(ctx, name)
-	}
+	ctx := tagCtx(context.Background(), name)
 	ctx = context.WithValue(ctx, recKey{}, &hit)
 	to := 15 * time.Millisecond
 	if expectUp {
@@ -303,7 +300,36 @@ func topUp(list []string, up map[string]bool) string {
 	return ""
 }
 
+// tagCtx builds the context a description stands for: "" no MultiEndpoint name at all, "n" the name n, "a>b" a context
+// tagged with a and then with b (also with the empty name: ">" is a context explicitly tagged with "").
+func tagCtx(ctx context.Context, desc string) context.Context {
+	if strings.Contains(desc, ">") {
+		for _, n := range strings.Split(desc, ">") {
+			ctx = grpcgcp.NewMEContext(ctx, n)
+		}
+		return ctx
+	}
+	if desc != "" {
+		ctx = grpcgcp.NewMEContext(ctx, desc)
+	}
+	return ctx
+}
+
+// ctxOf: the context description that names MultiEndpoint n.
+func ctxOf(n string) string {
+	if n == "" {
+		return ">"
+	}
+	return n
+}
+
 func (w *world) meFor(name string) string {
+	// a context description "a>b" stands for NewMEContext(NewMEContext(ctx, "a"), "b"): the innermost (last) name counts
+	if i := strings.LastIndex(name, ">"); i >= 0 {
+		name = name[i+1:]
+	} else if name == "" {
+		return w.def // the context names no MultiEndpoint at all (also when some MultiEndpoint is called "")
+	}
 	if _, ok := w.mes[name]; !ok {
 		return w.def
 	}
@@ -313,6 +339,9 @@ func (w *world) meFor(name string) string {
 // meName: indices from 100 on name the MultiEndpoint after an endpoint address (names and addresses are different
 // name spaces for the library; applications do call a MultiEndpoint after its primary endpoint).
 func meName(i int) string {
+	if i == 99 {
+		return "" // the empty string is a name like any other
+	}
 	if i >= 100 {
 		return EPNames[(i-100)%len(EPNames)]
 	}
@@ -330,6 +359,22 @@ func (w *world) contexts() []string {
 			names = append(names, n)
 		}
 	}
+	// contexts that were tagged more than once: the last tag counts, also when it is the empty or an unknown name
+	var chains []string
+	for n := range w.mes {
+		chains = append(chains, n+">", n+">unknown-name", "unknown-name>"+n)
+		for m := range w.mes {
+			if m != n {
+				chains = append(chains, n+">"+m)
+			}
+		}
+	}
+	sort.Strings(chains)
+	if len(chains) > 6 {
+		chains = chains[:6]
+	}
+	names = append(names, ">")
+	names = append(names, chains...)
 	sort.Strings(names)
 	return names
 }
@@ -878,7 +923,7 @@ func Run(c *Case, props map[string]bool) (res Result) {
 					w.labels["immediate-routing-not-checked-stale-pool-state"]++
 					continue
 				}
-				got, p := w.route(n, true, false)
+				got, p := w.route(ctxOf(n), true, false)
 				if p != nil {
 					w.fail("C16", "rpc-panic", "update: RPC on %q panicked: %v", n, p)
 				}
@@ -1072,10 +1117,7 @@ func (w *world) corruptInit(o *grpcgcp.GCPMultiEndpointOptions, kind string) boo
 // pool it entered (pools must have been dialed with Dial).
 func Probe(gme *grpcgcp.GCPMultiEndpoint, name string, timeout time.Duration) (hit string) {
 	defer func() { recover() }()
-	ctx := context.Background()
-	if name != "" {
-		ctx = grpcgcp.NewMEContext(ctx, name)
-	}
+	ctx := tagCtx(context.Background(), name)
 	ctx = context.WithValue(ctx, recKey{}, &hit)
 	ctx, cancel := context.WithTimeout(ctx, timeout)
 	defer cancel()
